@@ -2,7 +2,7 @@
 import json
 
 from .. import fake_ai, run, scenario
-from .common import (Case, HELD, VIOLATED, INCONCLUSIVE, TERM, bad_outcome, files_text, h, lua_script, rng, tsan_collect, tsan_env)
+from .common import (Case, HELD, VIOLATED, INCONCLUSIVE, TERM, bad_outcome, files_text, h, lua_script, rng, tsan_collect, tsan_env, endpoint_flake)
 
 ID = "C11"
 LEVEL = "exploration"
@@ -76,7 +76,7 @@ def judge(ctx, s, flavour, desc, extra_env=None, diff=None):
         return Case(VIOLATED, key=key, nontrivial=nontrivial, sig=sig, summary=summary, evals=2, sets=sets,
                     witness=dict(wit, observed={"run": res.brief(3000), "list": lst.brief(1500)}))
 
-    if res.cls == "wall-timeout" or lst.cls == "wall-timeout":
+    if res.cls == "wall-timeout" or lst.cls == "wall-timeout" or endpoint_flake(res) or endpoint_flake(lst):
         return Case(INCONCLUSIVE, key=key, summary="wall timeout", evals=2)
     if tsan_sigs:
         return bad("C11/tsan/" + tsan_sigs[0], "ThreadSanitizer report(s) outside tokio's I/O driver: %s" % tsan_sigs[:3])
